@@ -287,3 +287,26 @@ c.ens("the-object-already-held-or-one-new-object-stored-under-the-name-nothing-e
     (result == "the-object-held-for-this-name" and self.dict.log == [] and self._made == []) if old.self._present
     else (self._made == ["the-name"] and len(self.dict.log) == 1 and self.dict.log[0][0] == "set" and self.dict.log[0][1] == "the-name" and self.dict.log[0][2] is result
           and isinstance(result, SObj) and result.f.get("_fresh") is True)))
+
+
+# -- the value stack of PSStackParser (C01: arrays and dictionaries are assembled with it; C18: inline images; C07: CMap operands) --------------------------------
+sc = scenario("pdfminer.psparser", "value-stack-push-popall-results", """
+def stack_ops(p):
+    p.push((10, "v1"))
+    p.push((20, "v2"), (30, "v3"))
+    top = p.pop(1)
+    p.add_results((40, "r1"), (50, "r2"))
+    rest = p.popall()
+    after = (list(p.curstack), list(p.results))
+    p.reset()
+    return (top, rest, after, (p.context, p.curtype, p.curstack, p.results))
+""", props=["C01", "C18", "C07"])
+sc.param("p", T.Obj("pdfminer.psparser:PSStackParser", curstack=T.Const(None), results=T.Const(None), context=T.Const(None), curtype=T.Const(None)))
+sc.wire = lambda bound, ghosts: bound["p"].f.update(curstack=[(0, "v0")], results=[], context=[("outer",)], curtype="a")
+sc.skip_cross = True
+sc.inline_callees = True
+sc.mod("p.*")
+sc.returns(T.Opaque("observations"))
+sc.ens("push-appends-in-order-pop-takes-from-the-top-popall-empties-results-queue-in-order-reset-clears-everything", lambda result: (
+    list(result[0]) == [(30, "v3")] and list(result[1]) == [(0, "v0"), (10, "v1"), (20, "v2")]
+    and result[2] == ([], [(40, "r1"), (50, "r2")]) and result[3] == ([], None, [], [])))
